@@ -19,6 +19,16 @@ from rtmon import common
 from rtmon.monitors import quiescence
 
 
+USED_PIDS: set[int] = set()
+
+
+def sweep_scratch() -> None:
+    """Remove scratch directories left behind by workers that were killed (names carry the creating pid)."""
+    for pid in list(USED_PIDS):
+        for path in common.WORK_ROOT.glob(f"*-{pid}-*"):
+            common.rm(path)
+
+
 class Worker:
     """One `python -m rtmon.worker <module>` child process."""
 
@@ -43,6 +53,7 @@ class Worker:
             cwd=str(common.VERIF), env=env, start_new_session=True)
         self.buf = b""
         self.ready = False
+        USED_PIDS.add(self.proc.pid)
 
     def send(self, obj) -> None:
         assert self.proc and self.proc.stdin
@@ -103,7 +114,7 @@ class Worker:
 def run_cases(module: str, cases: list[dict], *, workers: int, case_timeout: float,
               quiescence_after: float | None = None, env_extra: dict | None = None,
               startup_timeout: float = 180.0, progress: bool = True,
-              rss_limit: int | None = None, max_hangs: int = 8) -> list[dict]:
+              rss_limit: int | None = None, max_hangs: int = 8, quiescence_scope: str = "tree") -> list[dict]:
     """Run every case in some worker; returns one result record per case (same order).
 
     Result record: {"case": case, "res": {...}} | {"case": case, "error": str, "sedpack_frame": bool}
@@ -203,13 +214,13 @@ def run_cases(module: str, cases: list[dict], *, workers: int, case_timeout: flo
                     return {"died": f"memory limit: resident set {rss >> 20} MiB exceeded {rss_limit >> 20} MiB "
                                     f"after {elapsed:.0f}s (killed by the parent's memory guard)"}
             if next_probe is not None and elapsed >= next_probe and worker.proc:
-                diag = quiescence.diagnose(worker.proc.pid, worker.log_path)
+                diag = quiescence.diagnose(worker.proc.pid, worker.log_path, scope=quiescence_scope)
                 if diag["verdict"] == "quiescent":
                     worker.kill()
                     return {"timeout": True, "diag": diag, "elapsed": elapsed}
                 next_probe = elapsed + max(5.0, quiescence_after or 5.0)
             if elapsed >= timeout:
-                diag = quiescence.diagnose(worker.proc.pid, worker.log_path) if worker.proc else {}
+                diag = quiescence.diagnose(worker.proc.pid, worker.log_path, scope=quiescence_scope) if worker.proc else {}
                 worker.kill()
                 return {"timeout": True, "diag": diag, "elapsed": elapsed}
 
@@ -220,6 +231,7 @@ def run_cases(module: str, cases: list[dict], *, workers: int, case_timeout: flo
     for thread in threads:
         thread.join()
     common.rm(logdir)
+    sweep_scratch()
     if retried[0] and progress:
         print(f"  [{module}] {retried[0]} case(s) re-run after an undecidable watchdog firing", flush=True)
     return [r if r is not None else {"case": cases[i], "died": "never ran"}
